@@ -404,7 +404,10 @@ func runScenario(sc Scenario, emit func(Line)) {
 	time.Sleep(time.Duration((sc.Cfg.RetryCount+2)*sc.Cfg.RetryDelay+60) * tick)
 	synctest.Wait()
 	l := snapshot(TraceEv{T: "End"})
-	l.Leaked = runtime.NumGoroutine() - base
+	// Goroutines of the session that are still blocked when the bubble's root
+	// returns make synctest.Test panic ("blocked goroutines remain"): that is the
+	// leak oracle (a goroutine count would be disturbed by neighbouring bubbles).
+	_ = base
 	if !l.Ended {
 		l.Leaked += 1000
 	}
